@@ -150,7 +150,9 @@ def seeded_variants(prop=None):
         if os.path.exists(mp):
             with open(mp) as fp:
                 meta = json.load(fp)
-        if meta.get("why_missed"):
+        if meta.get("why_missed") or meta.get("pending"):
+            # why_missed: documented as not decidable by this property's check;
+            # pending: taken in from a seeding round, rules not yet written (development state only)
             continue
         with open(patch) as fp:
             edits = _hunks(fp.read())
